@@ -36,8 +36,8 @@ pub fn run(scn: &Value, want_events: bool) -> Value {
     json!({"out": outcome(&r), "ev": ev})
 }
 
-const PATHS: [&str; 6] = ["a", "b", "d/a", "d/b", "e/d/a", "ab"];
-const PATS: [&str; 8] = ["a", "*", "d/*", "?", "*a", "d/?", "e/*", "??"];
+const PATHS: [&str; 9] = ["a", "b", "d/a", "d/b", "e/d/a", "ab", "A", ".h", "d/.h"];
+const PATS: [&str; 12] = ["a", "*", "d/*", "?", "*a", "d/?", "e/*", "??", "A", "?h", "*h", "d*"];
 
 fn rand_rule(rng: &mut impl Rng) -> Value {
     let kinds = ["CREATE", "DELETE", "MODIFY", "ALLOW", "REQUIRE", "DISALLOW", "MATCH", "MATCH"];
